@@ -389,6 +389,20 @@ class Machine:
         m = re.fullmatch(r"(-?\d+)_(u8|u16|u32|u64|usize|i8|i16|i32|i64|isize)", text)
         if m:
             return z3.BitVecVal(int(m.group(1)), int_width(m.group(2)))
+        m = re.fullmatch(r"'(.*)'", text, flags=re.S)
+        if m:  # char literal -> 32-bit scalar value
+            body = m.group(1)
+            esc = {"\\n": "\n", "\\t": "\t", "\\r": "\r", "\\\\": "\\", "\\'": "'", "\\0": "\0", '\\"': '"'}
+            um = re.fullmatch(r"\\u\{([0-9a-fA-F]+)\}", body)
+            if um:
+                return z3.BitVecVal(int(um.group(1), 16), 32)
+            body = esc.get(body, body)
+            if len(body) != 1:
+                raise Unknown("char constant %r" % text)
+            return z3.BitVecVal(ord(body), 32)
+        m = re.fullmatch(r'"(.*)"', text, flags=re.S)
+        if m and "\\" not in m.group(1):  # string constant -> list of characters
+            return QueueV([z3.BitVecVal(ord(c), 32) for c in m.group(1)])
         if text.startswith("ZeroSized"):
             return Token("zst")
         for key in (text, text.split("::")[-1]):
